@@ -23,6 +23,12 @@ func NewDuration(duration time.Duration, isKnown, isEstimate bool) Duration {
 	// Durations must always be positive.
 	if duration < 0 {
 		duration = -duration
+
+		// The most negative duration (which time.Time.Sub saturates at) has
+		// no positive counterpart: negating it leaves it negative.
+		if duration < 0 {
+			duration = math.MaxInt64
+		}
 	}
 
 	return Duration{
